@@ -30,8 +30,8 @@ impl Property for C18 {
     }
     fn cases(&self, tier: Tier) -> u64 {
         match tier {
-            Tier::Quick => 6000,
-            Tier::Thorough => 16 * 40000,
+            Tier::Quick => 48000,
+            Tier::Thorough => 48000 * 100,
         }
     }
     fn required_classes(&self) -> Vec<&'static str> {
